@@ -1265,6 +1265,21 @@ func (ai *AimInfo) fieldWritesX(fn *ssa.Function, withMaps bool) (map[string]str
 		for _, b := range f.Blocks {
 			for _, in := range b.Instrs {
 				var addr ssa.Value
+				// package-level variables of the module: stores into them (or into what they hold: fields, elements, map
+				// entries) and handing their address to a function outside the module (sync.Map.Store, atomic.Add, Once.Do)
+				// sources of run-to-run / node-to-node divergence (C01): wall clock, randomness, environment, process identity,
+				// goroutines / select, and ranging over a map (Go randomises the order)
+				for _, k := range nondetSources(in) {
+					if _, had := out[k]; !had {
+						out[k] = dirRe.ReplaceAllString(f.String(), "")
+					}
+				}
+				for _, g := range globalWrites(in, rootOf) {
+					key := "global:" + g.Pkg.Pkg.Path()[strings.LastIndex(g.Pkg.Pkg.Path(), "/")+1:] + "." + g.Name()
+					if _, had := out[key]; !had {
+						out[key] = dirRe.ReplaceAllString(f.String(), "")
+					}
+				}
 				if mu, ok := in.(*ssa.MapUpdate); ok && withMaps {
 					if ld, ok := mu.Map.(*ssa.UnOp); ok && ld.Op == token.MUL {
 						addr = ld.X
@@ -1335,6 +1350,105 @@ func (ai *AimInfo) fieldWritesX(fn *ssa.Function, withMaps bool) (map[string]str
 		}
 	}
 	return out, unknown
+}
+
+// nondetSources: keys "nondet:<what>" / "maprange:<function>" for an instruction that can make two runs of the same history differ.
+func nondetSources(in ssa.Instruction) []string {
+	switch x := in.(type) {
+	case *ssa.Go:
+		return []string{"nondet:go-statement"}
+	case *ssa.Select:
+		return []string{"nondet:select-statement"}
+	case *ssa.Range:
+		if _, ok := x.X.Type().Underlying().(*types.Map); ok {
+			fn := x.Parent()
+			return []string{"maprange:" + dirRe.ReplaceAllString(fn.String(), "")}
+		}
+	case ssa.CallInstruction:
+		c := x.Common()
+		callee := c.StaticCallee()
+		if callee == nil {
+			return nil
+		}
+		n := callee.String()
+		for _, p := range []string{"time.Now", "time.Since", "time.Until", "math/rand.", "(*math/rand.", "crypto/rand.", "os.Getenv", "os.LookupEnv", "os.Hostname", "os.Getpid",
+			"github.com/google/uuid.New", "github.com/google/uuid.Must", "runtime.NumGoroutine", "runtime.NumCPU"} {
+			if strings.HasPrefix(n, p) {
+				// keyed by the calling function: the allow-list names sites (the logger's time stamps), not the source as such
+				site := dirRe.ReplaceAllString(x.Parent().String(), "")
+				if pf := x.Parent(); pf.Pkg != nil && pf.Pkg.Pkg.Path() == modPath+"/log" {
+					site = "log" // the logger's time stamps: one site
+				}
+				return []string{"nondet:" + n + "@" + site}
+			}
+		}
+	}
+	return nil
+}
+
+// globalWrites: the module's package-level variables instruction `in` may write.
+func globalWrites(in ssa.Instruction, rootOf func(ssa.Value) ssa.Value) []*ssa.Global {
+	var out []*ssa.Global
+	modGlobal := func(v ssa.Value) *ssa.Global {
+		// the global itself (an address), or the value loaded from it (a map / pointer / slice it holds)
+		r := rootOf(v)
+		if ld, ok := r.(*ssa.UnOp); ok && ld.Op == token.MUL {
+			r = rootOf(ld.X)
+		}
+		if g, ok := r.(*ssa.Global); ok && g.Pkg != nil && strings.HasPrefix(g.Pkg.Pkg.Path(), modPath) {
+			return g
+		}
+		return nil
+	}
+	switch x := in.(type) {
+	case *ssa.Store:
+		if g := modGlobal(x.Addr); g != nil {
+			out = append(out, g)
+		}
+	case *ssa.MapUpdate:
+		if g := modGlobal(x.Map); g != nil {
+			out = append(out, g)
+		}
+	case ssa.CallInstruction:
+		c := x.Common()
+		if b, ok := c.Value.(*ssa.Builtin); ok {
+			if b.Name() == "delete" && len(c.Args) > 0 {
+				if g := modGlobal(c.Args[0]); g != nil {
+					out = append(out, g)
+				}
+			}
+			return out
+		}
+		callee := c.StaticCallee()
+		if callee != nil && callee.Pkg != nil && strings.HasPrefix(callee.Pkg.Pkg.Path(), modPath) {
+			return out // a module function: its own stores are seen when it is visited
+		}
+		name := ""
+		if callee != nil {
+			name = callee.String()
+		} else if c.IsInvoke() {
+			name = c.Method.Name()
+		}
+		switch name {
+		case "(*sync.Map).Load", "(*sync.Map).Range", "(*sync.Mutex).Lock", "(*sync.Mutex).Unlock", "(*sync.RWMutex).Lock", "(*sync.RWMutex).Unlock",
+			"(*sync.RWMutex).RLock", "(*sync.RWMutex).RUnlock", "sync/atomic.LoadInt64", "sync/atomic.LoadUint64", "sync/atomic.LoadInt32", "sync/atomic.LoadUint32":
+			return out
+		}
+		args := c.Args
+		if c.IsInvoke() {
+			args = append([]ssa.Value{c.Value}, args...)
+		}
+		for _, a := range args {
+			// only the ADDRESS of a global (or of something inside it) lets an outside function write it
+			if _, isPtr := a.Type().Underlying().(*types.Pointer); !isPtr {
+				continue
+			}
+			if g, ok := rootOf(a).(*ssa.Global); ok && g.Pkg != nil && strings.HasPrefix(g.Pkg.Pkg.Path(), modPath) {
+				out = append(out, g)
+			}
+		}
+	}
+	return out
 }
 
 // createdIn: f contains the MakeClosure of c (or names c directly).
@@ -1413,10 +1527,70 @@ func (P *Program) NoWriteObligations(hasTag func(string) bool) []*Obligation {
 			if w == nil {
 				w, unk = ai.fieldWrites(fn)
 			}
-			for _, fld := range strings.Fields(strings.ReplaceAll(nw.Src, ",", " ")) {
+			toks := strings.Fields(strings.ReplaceAll(nw.Src, ",", " "))
+			except := map[string]bool{}
+			for _, t := range toks {
+				if strings.HasPrefix(t, "@except:") {
+					except["global:"+strings.TrimPrefix(t, "@except:")] = true
+				}
+			}
+			for _, fld := range toks {
+				if strings.HasPrefix(fld, "@except:") {
+					continue
+				}
 				ob := &Obligation{
 					Name: fmt.Sprintf("%s/%s.%s/nowrite[%s]#1", nw.Tag, shortPkg(ct.Pkg), ct.Target, fld), Tag: nw.Tag, Kind: "nowrite", Func: fn.String(),
 					Desc: fmt.Sprintf("call-graph frame: %s never writes %s of an object it did not allocate", ct.Target, fld),
+				}
+				if fld == "@nondet" {
+					// no source of run-to-run / node-to-node divergence in the call graph: wall clock, randomness, environment,
+					// process identity, goroutines / select, ranging over a map - except the sites listed with @except:<key>
+					ob.Desc = fmt.Sprintf("call-graph frame: nothing reachable from %s reads the wall clock, randomness, the environment or the process identity, starts a goroutine, selects, or ranges over a map, except at the listed sites", ct.Target)
+					exc := map[string]bool{}
+					for _, t := range toks {
+						if strings.HasPrefix(t, "@except:") {
+							exc[strings.TrimPrefix(t, "@except:")] = true
+						}
+					}
+					var hit []string
+					for k, where := range w {
+						if (strings.HasPrefix(k, "nondet:") || strings.HasPrefix(k, "maprange:")) && !exc[k] {
+							hit = append(hit, k+" (in "+where+")")
+						}
+					}
+					sort.Strings(hit)
+					switch {
+					case unk:
+						ob.Result = &SolveResult{Status: "unknown", Backend: "callgraph", Output: "a function value of unresolvable type is called"}
+					case len(hit) > 0:
+						ob.Result = &SolveResult{Status: "sat", Backend: "callgraph", Output: "sources of divergence not on the list: " + strings.Join(hit, "; ")}
+					default:
+						ob.Result = &SolveResult{Status: "unsat", Backend: "callgraph"}
+					}
+					out = append(out, ob)
+					continue
+				}
+				if fld == "@globals" {
+					// no package-level variable of the module is written (stored into, map entry set/deleted, address handed to a
+					// function outside the module) anywhere in the call graph, except the ones listed with @except:pkg.name
+					ob.Desc = fmt.Sprintf("call-graph frame: %s writes no package-level variable of the module (process-wide state survives a discarded session and is shared by CheckTx and DeliverTx)", ct.Target)
+					var hit []string
+					for k, where := range w {
+						if strings.HasPrefix(k, "global:") && !except[k] {
+							hit = append(hit, strings.TrimPrefix(k, "global:")+" (in "+where+")")
+						}
+					}
+					sort.Strings(hit)
+					switch {
+					case unk:
+						ob.Result = &SolveResult{Status: "unknown", Backend: "callgraph", Output: "a function value of unresolvable type is called"}
+					case len(hit) > 0:
+						ob.Result = &SolveResult{Status: "sat", Backend: "callgraph", Output: "package-level variables written: " + strings.Join(hit, "; ")}
+					default:
+						ob.Result = &SolveResult{Status: "unsat", Backend: "callgraph"}
+					}
+					out = append(out, ob)
+					continue
 				}
 				switch {
 				case !ai.fieldExists(fld):
